@@ -70,8 +70,37 @@ def run_case(shape, rebases=(), explicit_root=(), with_classes=False):
     return bad
 
 
+def twin_case(variant=0):
+    """a base is replaced by a RE-CREATED interface (same name and module, another object: a reloaded schema), then the new
+    object is re-based: every dependent must follow the object that is its base now"""
+    n = common.uname('ITwin')
+    ITitled = InterfaceClass(common.uname('ITitled'), (Interface,), {})
+    IAud = InterfaceClass(common.uname('IAud'), (Interface,), {})
+    item1 = InterfaceClass(n, (ITitled,), {}, __module__='falsify.twins')
+    doc = InterfaceClass(common.uname('IDoc'), (item1,) if variant != 2 else (item1, IAud), {})
+    sub = InterfaceClass(common.uname('ISubDoc'), (doc,), {})
+    K = type(common.uname('KDoc'), (object,), {})
+    classImplements(K, doc)
+    specs = [doc, sub, implementedBy(K)]
+    bad = []
+    for s in specs:
+        bad += check_spec(s, 'twin history: fresh')
+    item2 = InterfaceClass(n, (ITitled,), {}, __module__='falsify.twins')
+    doc.__bases__ = tuple(item2 if b is item1 else b for b in doc.__bases__)
+    for s in specs + [item2]:
+        bad += check_spec(s, 'twin history: base replaced by a re-created interface of the same name')
+    item2.__bases__ = (ITitled, IAud) if variant != 2 else (IAud, ITitled)
+    for s in specs + [item2]:
+        bad += check_spec(s, 'twin history: the re-created interface re-based afterwards')
+    if variant == 1:
+        item1.__bases__ = (Interface,)          # the replaced object must no longer matter
+        for s in specs:
+            bad += check_spec(s, 'twin history: the replaced interface re-based afterwards')
+    return bad
+
+
 def replay(shape, rebases=(), explicit_root=(), with_classes=False):
-    bad = run_case(shape, rebases, explicit_root, with_classes)
+    bad = run_case(shape, rebases, explicit_root, with_classes) if shape != 'twin' else twin_case(rebases)
     for sig, what, known in bad:
         print('violated:', sig, what)
     sys.exit(1 if bad else 0)
@@ -93,7 +122,7 @@ def run(ctx):
     nmax = 4 if ctx.tier == 'quick' else 5
     ctx.rule = ('all ordered DAG shapes (<=2 ordered bases per node) up to %d interfaces, each checked fresh and after every '
                 'single re-basing (quick: shapes <=3 for re-basing), plus seeded random shapes up to 7 nodes with <=3 bases, '
-                'explicit Interface bases and class specifications; distinct = distinct (shape, history)' % nmax)
+                'explicit Interface bases and class specifications; histories in which a base is replaced by a re-created interface of the same name and module; distinct = distinct (shape, history)' % nmax)
     ctx.bounds = 'nodes<=%d exhaustive, random<=7' % nmax
     for n in range(1, nmax + 1):
         for shape in common.all_shapes(n, 2):
@@ -108,6 +137,10 @@ def run(ctx):
                     for sig, what, known in run_case(shape, (rb,)):
                         ctx.violation(sig + ':' + repr((shape, rb)) if known is None else known, what,
                                       script(shape, (rb,), (), False), known)
+    for variant in (0, 1, 2):
+        ctx.case(('twin', variant))
+        for sig, what, known in twin_case(variant):
+            ctx.violation(sig + ':twin%d' % variant, what, 'from falsify.C03 import replay\nreplay("twin", %d)\n' % variant, known)
     ctx.sample({'shape': [list(b) for b in shape], 'checked': 'sro/iro/strict/is_consistent fresh and after re-basing'})
     trials = 300 if ctx.tier == 'quick' else 4000
     for t in range(trials):
